@@ -128,6 +128,8 @@ type c16Opts struct {
 	// indexed input / a selected leaf under an array
 	wantIndexed bool
 	wantArray   bool
+	// allIndexed: the event has indexed inputs only (its logs carry no data)
+	allIndexed bool
 }
 
 // c16Decl draws one integration of the C16 space.
@@ -156,6 +158,20 @@ func c16Decl(r *vk.RNG, k int, table string, srcs []string, o c16Opts) *model.De
 		if okI && okA {
 			break
 		}
+	}
+	if o.allIndexed && d.Mode() == model.ModeLog {
+		// e.g. ERC-721 Transfer(address indexed, address indexed, uint256 indexed): logs without data
+		n := r.Range(1, 3)
+		types := []refmodel.Type{refmodel.Address(), refmodel.Uint(256), refmodel.BytesN(32), refmodel.Uint(64)}
+		var ins []refmodel.Field
+		for i := 0; i < n; i++ {
+			f := refmodel.Field{Name: fmt.Sprintf("p%d", i), Type: vk.Pick(r, types), Indexed: true}
+			if i == 0 || r.Bool() {
+				f.Column = fmt.Sprintf("p%d", i)
+			}
+			ins = append(ins, f)
+		}
+		d.Inputs = ins
 	}
 	for _, s := range srcs[1:] {
 		d.Sources = append(d.Sources, model.SrcRef{Name: s, Start: 1})
@@ -781,6 +797,9 @@ func c16Run(c *vk.Case) {
 			}
 		} else {
 			o.declare = r.Intn(8)
+			if kind == "single" && r.Chance(1, 3) {
+				o.mode, o.allIndexed, o.arrays, o.userUniq = int(model.ModeLog), true, false, false
+			}
 		}
 		return o
 	}
